@@ -380,4 +380,128 @@ theorem execBlockK_straight {σ ρ : Type} (S : Sem σ ρ) (preds : List Nat) (b
     | jmp off => simp [Ins.isBranchy] at h
     | switch sc cases d m => simp [Ins.isBranchy] at h
 
+theorem lastContaining_mem : ∀ (as : List Arm) (b : Nat) (a : Arm), lastContaining as b = some a →
+    a ∈ as ∧ a.contains b = true
+  | [], _, _, h => by simp [lastContaining] at h
+  | x :: xs, b, a, h => by
+    simp only [lastContaining] at h
+    cases hl : lastContaining xs b with
+    | some y =>
+      simp only [hl, Option.some.injEq] at h
+      subst h
+      have := lastContaining_mem xs b y hl
+      exact ⟨List.mem_cons_of_mem _ this.1, this.2⟩
+    | none =>
+      simp only [hl] at h
+      split at h
+      · rename_i hc
+        simp only [Option.some.injEq] at h
+        subst h
+        exact ⟨List.mem_cons_self .., hc⟩
+      · simp at h
+
+theorem switchTarget_mem (cases : List (Int × Nat)) (d : Option Nat) (v : Int) (n : Nat)
+    (h : switchTarget cases d v = some n) : (∃ c ∈ cases, c.2 = n) ∨ d = some n := by
+  simp only [switchTarget] at h
+  split at h
+  · rename_i c hc
+    simp only [Option.some.injEq] at h
+    exact Or.inl ⟨c, List.mem_of_find?_eq_some hc, h⟩
+  · exact Or.inr h
+
+/-- without back edges every block hands control to a later block -/
+theorem execBlock_forward {σ ρ : Type} (S : Sem σ ρ) (as : List Arm) (preds : List Nat) (bi : Nat)
+    (ha : as.all (fun a => decide (a.stop ≤ a.merge)) = true) :
+    ∀ (is : List Ins), is.all (Ins.forward bi) = true → ∀ (pred : Nat) (s : σ) (bb p : Nat) (s' : σ),
+      execBlock S as preds bi is pred s = .next bb p s' → bi < bb := by
+  intro is
+  induction is with
+  | nil =>
+    intro _ pred s bb p s' h
+    simp only [execBlock] at h
+    split at h
+    · rename_i a hl
+      simp only [Flow.next.injEq] at h
+      have hm := lastContaining_mem as bi a hl
+      have := List.all_eq_true.mp ha a hm.1
+      simp only [Arm.contains, Bool.and_eq_true, decide_eq_true_eq] at hm this
+      omega
+    · simp at h
+  | cons i rest ih =>
+    intro hf pred s bb p s' h
+    simp only [List.all_cons, Bool.and_eq_true] at hf
+    cases i with
+    | op k =>
+      simp only [execBlock] at h
+      split at h
+      · exact ih hf.2 _ _ _ _ _ h
+      · simp at h
+    | phi d l r =>
+      simp only [execBlock] at h
+      split at h
+      · split at h
+        · exact ih hf.2 _ _ _ _ _ h
+        · split at h
+          · exact ih hf.2 _ _ _ _ _ h
+          · simp at h
+      · simp at h
+    | phiSwitch d ins =>
+      simp only [execBlock] at h
+      split at h
+      · exact ih hf.2 _ _ _ _ _ h
+      · simp at h
+    | jmpIf c t e m =>
+      simp only [execBlock, Flow.next.injEq] at h
+      have := hf.1
+      simp only [Ins.forward, Bool.and_eq_true, decide_eq_true_eq] at this
+      split at h <;> omega
+    | jmp off =>
+      simp only [execBlock, Flow.next.injEq] at h
+      have := hf.1
+      simp only [Ins.forward, decide_eq_true_eq] at this
+      omega
+    | switch sc cases d m =>
+      simp only [execBlock] at h
+      split at h
+      · rename_i n hn
+        simp only [Flow.next.injEq] at h
+        have := hf.1
+        simp only [Ins.forward, Bool.and_eq_true, List.all_eq_true, decide_eq_true_eq] at this
+        rcases switchTarget_mem _ _ _ _ hn with ⟨c, hc, hcn⟩ | hd
+        · have := this.1 c hc; omega
+        · have h2 := this.2
+          rw [hd] at h2
+          simp only [Option.all_some, decide_eq_true_eq] at h2
+          omega
+      · simp at h
+    | ret v => simp [execBlock] at h
+
+/-- … hence the block graph is left (return or panic) after at most `length` blocks -/
+theorem runCfg_terminates {σ ρ : Type} (S : Sem σ ρ) (bs : Cfg) (hf : forward bs = true) :
+    ∀ (n bb : Nat), bs.length ≤ bb + n → ∀ (pred : Nat) (s : σ) (bb' p : Nat) (s' : σ),
+      runCfg S bs (n + 1) bb pred s ≠ .more bb' p s' := by
+  simp only [forward, Bool.and_eq_true] at hf
+  intro n
+  induction n with
+  | zero =>
+    intro bb hle pred s bb' p s'
+    have : bs[bb]? = none := by simp; omega
+    simp [runCfg, this]
+  | succ n ih =>
+    intro bb hle pred s bb' p s'
+    simp only [runCfg]
+    cases hb : bs[bb]? with
+    | none => simp
+    | some b =>
+      simp only
+      have hfb : b.all (Ins.forward bb) = true := by
+        have := allIdx_getElem? _ bs 0 bb b hf.1 hb
+        simpa using this
+      cases hx : execBlock S (arms bs) ((blockPreds bs).getD bb []) bb b pred s with
+      | next b2 p2 s2 =>
+        have hlt := execBlock_forward S (arms bs) _ bb hf.2 b hfb pred s b2 p2 s2 hx
+        exact ih b2 (by omega) p2 s2 bb' p s'
+      | ret r => simp
+      | panic => simp
+
 end Mimium.RustGen
